@@ -100,9 +100,9 @@ func newAgg(res *lib.Result) *agg {
 	a.ties[tiePipe] = res.Tie(tiePipe, "K4", tiePipeRule)
 	a.ties[tieLate] = res.Tie(tieLate, "K4", tieLateRule)
 	a.mons[monShutdown] = res.Monitor(monShutdown,
-		"real pkg/resource + minibus under scenarios (0-8 subscribers, backpressure on/off, updates-only, PullID; consumers drain / stop after k / never receive; cancel before subscribe, at the n-th occurrence of every yield point, at random instants, at the end; 0-3 writers): after the cancel the consumer sees close within the bound; writers return once every non-receiving subscriber is cancelled; a write issued after a subscription ended returns; PullID closes after its item is removed (collections with an id interceptor lower/upper/trim: subscriber and writers spell the ids differently, the oracle keys everything by the intercepted id); trait-level subscriptions (Pull adapters of 10 trait models; the ModelServer gRPC Pull handlers of the same 10 traits on a stream whose Send starts failing at message 1, 2 or 3, or never): drain or stop receiving, writes, then cancel, also with an already-cancelled context; the goroutine census (runtime.Stack filtered to pkg/resource + internal/minibus + pkg/trait/* frames) returns to empty; no panic (recovered or process-killing). non-trivial = at least one subscriber; distinct = distinct check x subscription class x consumer/cancel mode")
+		"real pkg/resource + minibus under scenarios (0-8 subscribers, backpressure on/off, updates-only, PullID; consumers drain / stop after k / never receive; cancel before subscribe, at the n-th occurrence of every yield point, at random instants, at the end; 0-3 writers): after the cancel the consumer sees close within the bound; writers return once every non-receiving subscriber is cancelled; a write issued after a subscription ended returns; PullID closes after its item is removed - with backpressure after the first removal, without once the item is gone for good - also for a consumer that stayed away while the item was deleted / re-added / deleted behind it and came back without cancelling, and on collections built WithNoDuplicates / WithMessageEquivalence / WithEquivalence (items of two message types, the empty message included; read masks that select the payload or only a never-set field) (collections with an id interceptor lower/upper/trim: subscriber and writers spell the ids differently, the oracle keys everything by the intercepted id); trait-level subscriptions (Pull adapters of 10 trait models; the ModelServer gRPC Pull handlers of the same 10 traits on a stream whose Send starts failing at message 1, 2 or 3, or never): drain or stop receiving, writes, then cancel, also with an already-cancelled context; the goroutine census (runtime.Stack filtered to pkg/resource + internal/minibus + pkg/trait/* frames) returns to empty; no panic (recovered or process-killing). non-trivial = at least one subscriber; distinct = distinct check x subscription class x consumer/cancel mode")
 	a.mons[monDelivery] = res.Monitor(monDelivery,
-		"oracle: per-writer list of the writes that succeeded. Bus level (free-running, no yield points): rounds with 300-12000 already-cancelled listeners so that the next Send collects, 4-12 goroutines subscribing while 1-2 Sends run, then a sentinel Send: every listener whose Listen returned before the sentinel Send began must receive it exactly once. Resource level: a backpressure subscriber subscribed before the writers start, receiving throughout and not cancelled until they finished must receive each writer's events exactly once in that writer's order; every other subscriber must see strictly increasing sequence numbers per writer (no duplicate, no reordering). non-trivial = at least one event expected/received")
+		"oracle: per-writer list of the writes that succeeded. Bus level (free-running, no yield points): rounds with 300-12000 already-cancelled listeners so that the next Send collects, 4-12 goroutines subscribing while 1-2 Sends run, then a sentinel Send: every listener whose Listen returned before the sentinel Send began must receive it exactly once. Resource level: a backpressure subscriber subscribed before the writers start, receiving throughout and not cancelled until they finished must receive each writer's events exactly once in that writer's order; every other subscriber must see strictly increasing sequence numbers per writer (no duplicate, no reordering); net effect: what a receiving, uncancelled Collection.Pull subscriber (with or without backpressure) has received adds up, once the writers are done, to the items that exist (a removal or re-creation of an item it was shown is never lost, whatever the lossy stage merged); a subscriber whose read mask hides the payload is judged by item and change type. non-trivial = at least one event expected/received")
 	return a
 }
 
